@@ -640,6 +640,9 @@ func (r *Registry) rangeFact(t Term, depth int) string {
 		if _, ok := u.Elem().Underlying().(*types.Slice); ok {
 			return implies(not(r.isNil(t)), r.rangeFact(r.deref(t), depth+1))
 		}
+		if _, ok := u.Elem().Underlying().(*types.Basic); ok {
+			return implies(not(r.isNil(t)), r.rangeFact(r.deref(t), depth+1))
+		}
 	case *types.Map:
 		s := r.SortOf(t.T)
 		return "(>= (size_" + s + " " + t.S + ") 0)"
